@@ -271,11 +271,41 @@ SHAPES_FOR_SUPERSET = ["N", "#0", "#1", "S0", "B0", "A0(#0)", "A1(N)", "A0(S0)",
 _LONE = re.compile(r'\\u[dD][89abAB][0-9a-fA-F]{2}(?!\\u[dD][c-fC-F][0-9a-fA-F]{2})|(?<!\\u[dD][89abAB][0-9a-fA-F]{2})\\u[dD][c-fC-F][0-9a-fA-F]{2}')
 _BIGEXP = re.compile(r'[eE]\+?\d{3,}')
 
+def has_unpaired_surrogate_escape(text):
+    """scan the escapes properly (an escaped backslash does not start a \\u escape): a \\uD800-DBFF not followed
+    by a \\uDC00-DFFF, or a \\uDC00-DFFF that does not follow a high surrogate"""
+    i, n = 0, len(text)
+    prev_high = False
+    while i < n:
+        c = text[i]
+        if c == '\\' and i + 1 < n:
+            e = text[i + 1]
+            if e == 'u' and i + 6 <= n and re.fullmatch(r'[0-9a-fA-F]{4}', text[i + 2:i + 6]):
+                v = int(text[i + 2:i + 6], 16)
+                if 0xDC00 <= v <= 0xDFFF:
+                    if not prev_high:
+                        return True
+                    prev_high = False
+                else:
+                    if prev_high:
+                        return True
+                    prev_high = 0xD800 <= v <= 0xDBFF
+                i += 6
+                continue
+            if prev_high:
+                return True
+            i += 2
+            continue
+        if prev_high:
+            return True
+        i += 1
+    return prev_high
+
 def serde_deviation(text, ref_depth):
     """why serde_json may reject a text that RFC 8259 admits (None = no known reason)"""
     if ref_depth is not None and ref_depth > 127:
         return "recursion limit 128"
-    if _LONE.search(text):
+    if _LONE.search(text) or has_unpaired_surrogate_escape(text):
         return "lone surrogate escape"
     if _BIGEXP.search(text):
         return "number out of f64 range"
